@@ -172,6 +172,9 @@ func (p *Prog) sym(v ssa.Value) *Sym {
 			// a value handed to the goroutine with the go statement reads as the field it replaces
 			return &Sym{Op: "field", Name: info.role, Args: []*Sym{p.Sym(info.recv)}}
 		}
+		if u := p.uniformFieldParam(v); u != nil {
+			return u
+		}
 		return &Sym{Op: "param", Name: v.Name()}
 	case *ssa.FreeVar:
 		return &Sym{Op: "free", Name: v.Name()}
@@ -216,6 +219,11 @@ func (p *Prog) sym(v ssa.Value) *Sym {
 	case *ssa.Convert:
 		return &Sym{Op: "conv", Name: typeShort(v.Type()), Args: []*Sym{p.Sym(v.X)}}
 	case *ssa.ChangeType:
+		switch v.Type().Underlying().(type) {
+		case *types.Map, *types.Chan, *types.Slice:
+			// a private named map / channel / slice type is the same object under another name
+			return p.Sym(v.X)
+		}
 		return &Sym{Op: "conv", Name: typeShort(v.Type()), Args: []*Sym{p.Sym(v.X)}}
 	case *ssa.ChangeInterface:
 		return p.Sym(v.X)
@@ -225,6 +233,17 @@ func (p *Prog) sym(v ssa.Value) *Sym {
 		s := &Sym{Op: "call", Name: p.calleeName(&v.Call)}
 		if v.Call.IsInvoke() {
 			s.Args = append(s.Args, p.Sym(v.Call.Value))
+		}
+		if strings.HasPrefix(s.Name, "dyn:") {
+			// a product method called through a method value (output := dsc.priority.Output ...
+			// output()) reads as the call of that method on the bound receiver
+			if ts := p.funcValueTargets(nil, v); len(ts) == 1 {
+				s.Name = p.funcDisplay(ts[0].Fn)
+				for _, a := range ts[0].Args {
+					s.Args = append(s.Args, p.Sym(a))
+				}
+				return s
+			}
 		}
 		for _, a := range v.Call.Args {
 			s.Args = append(s.Args, p.Sym(a))
@@ -560,4 +579,88 @@ func (s *Sym) FieldPath() (root *Sym, path []string, ok bool) {
 		return nil, nil, false
 	}
 	return cur, path, len(path) > 0
+}
+
+// uniformFieldParam: a map, channel, slice or field address that a private function or method
+// receives as a parameter (typically the receiver of a method of a private named type:
+// dsc.tactic.reset(), dsc.join.add(item)) reads as the discipline field it is at every call
+// site, when all call sites pass the same field. Scalars are not followed (they are snapshots).
+func (p *Prog) uniformFieldParam(v *ssa.Parameter) *Sym {
+	fn := v.Parent()
+	if fn == nil || fn.Parent() != nil || !p.IsProduct(fn) {
+		return nil
+	}
+	if obj, _ := fn.Object().(*types.Func); obj == nil || obj.Exported() {
+		return nil
+	}
+	switch t := v.Type().Underlying().(type) {
+	case *types.Map, *types.Chan, *types.Slice:
+	case *types.Pointer:
+		if _, isStruct := t.Elem().Underlying().(*types.Struct); isStruct {
+			return nil
+		}
+	default:
+		return nil
+	}
+	idx := paramIndex(fn, v)
+	if idx != 0 || fn.Signature.Recv() == nil {
+		return nil // only the receiver of a method of a private named map / channel / slice type
+	}
+	discs := map[*types.Named]bool{}
+	for _, d := range p.Discs() {
+		discs[d.Named] = true
+	}
+	var found *Sym
+	for _, cs := range p.CallSites(fn) {
+		if _, isGo := cs.(*ssa.Go); isGo {
+			return nil
+		}
+		args := cs.Common().Args
+		if idx >= len(args) {
+			return nil
+		}
+		a := p.Sym(args[idx])
+		root, _, ok := a.FieldPath()
+		if !ok || root.V == nil || !discs[namedOrigin(root.V.Type())] {
+			return nil
+		}
+		if found != nil && found.String() != a.String() {
+			return nil
+		}
+		found = a
+	}
+	return found
+}
+
+// stripRefConv looks through conversions between a map / channel / slice type and a named type
+// of the same underlying type (the same object under another name).
+func stripRefConv(v ssa.Value) ssa.Value {
+	for {
+		ct, ok := v.(*ssa.ChangeType)
+		if !ok {
+			return v
+		}
+		switch ct.Type().Underlying().(type) {
+		case *types.Map, *types.Chan, *types.Slice:
+			v = ct.X
+		default:
+			return v
+		}
+	}
+}
+
+// refConvReferrers: the referrers of v, looking through such conversions.
+func refConvReferrers(v ssa.Value) []ssa.Instruction {
+	var out []ssa.Instruction
+	if v.Referrers() == nil {
+		return nil
+	}
+	for _, r := range *v.Referrers() {
+		if ct, ok := r.(*ssa.ChangeType); ok && stripRefConv(ct) != ssa.Value(ct) {
+			out = append(out, refConvReferrers(ct)...)
+			continue
+		}
+		out = append(out, r)
+	}
+	return out
 }
